@@ -163,7 +163,7 @@ def replay_direct(blob):
 
 VALS = [0.0, -0.0, 1.00005, -2.99995, 123456.789, 1e-5, 0.00005, 2.5, -7.12345678, 1e6, 0.99999, -0.00004]
 COMMENTS = ["plain note", "  leading blanks", "", "   ", "# starts with hash", "trailing  ", "source: fake", "x y z",
-            "form\x0cfeed", "vertical\x0btab and \x1c\x1d\x1e separators"]  # single-line for file iteration, but str.splitlines() would break them
+            "form\x0cfeed", "vertical\x0btab and \x1c\x1d\x1e separators", "source: batch-1", ""]  # the last two: a comment block that LOOKS like a source header  # single-line for file iteration, but str.splitlines() would break them
 
 
 def _expected(v):
@@ -256,6 +256,6 @@ def h_frame(c, n):
 HARNESSES = [
     Direct("language", d_language, functions=FUNCTIONS, bounds="rows of ANY length: the language of all rows the running writer can emit (format specs probed on the real to_swc) is included in the language of the reader's compiled pattern"),
     H("roundtrip", h_roundtrip, quick=[dict(n=k, kind=kd) for k in (1, 2) for kd in ("text", "bytes")] + [dict(n=3, kind="file")], thorough=[dict(n=3, kind="text"), dict(n=3, kind="bytes"), dict(n=4, kind="file")], functions=FUNCTIONS,
-      bounds="every numbering (root 0) of every tree on n<=2-3 (quick) / 3-4 (thorough) nodes x 4 rotations of a 12-value palette (rounding at the 4th decimal, -0.0, 1e6, 1e-5) and of the type palette {0,1,3,7} x 0..3 consecutive comments from a cyclic palette of 10 (plain, leading blanks, empty, blank-only, '#...', trailing blanks, 'source: ...', ASCII form feed / vertical tab / FS-GS-RS inside a comment) x id offsets {0,1,2,7,10^6} x source {False,True,str} x {text, bytes, file}"),
+      bounds="every numbering (root 0) of every tree on n<=2-3 (quick) / 3-4 (thorough) nodes x 4 rotations of a 12-value palette (rounding at the 4th decimal, -0.0, 1e6, 1e-5) and of the type palette {0,1,3,7} x 0..3 consecutive comments from a cyclic palette of 12 (plain, leading blanks, empty, blank-only, '#...', trailing blanks, 'source: ...', ASCII form feed / vertical tab / FS-GS-RS inside a comment, 'source: ...' followed by an empty comment) x id offsets {0,1,2,7,10^6} x source {False,True,str} x {text, bytes, file}"),
     H("frame", h_frame, quick=[dict(n=2), dict(n=3)], thorough=[dict(n=4)], functions=FUNCTIONS, bounds="n<=3/4, id offsets 0/1/5, with/without an extra column, both reset_index modes"),
 ]
